@@ -56,6 +56,9 @@ def run(chk):
     fids = [f for f in scope if prog.bodies[f].file == "a2lfile/src/sort.rs"]
     diag.compare(chk, "R15-table", "sort", sortrules.sort_table(prog, fids), "uid updates reachable from sort::sort_new_items with their control predicates, compared with the reviewed table", floor=15,
                  fn_filter=lambda fn: fn in {re.sub(r"\{closure#\d+\}", "{closure}", mir.strip_generics(f)) for f in fids} or fn.split("::{closure}")[0] in {mir.strip_generics(f) for f in fids})
+    # comparators of sort.rs (placement of new elements behind placed ones, order among new elements): semantic decision tables
+    from . import cmpsem
+    cmpsem.compare(chk, "R15-cmp", select=lambda n: n.startswith("sort::"), floor=3)
     # ---------------------------------------------------------------- R15-next
     # "the slot behind an element that already has a position" is (its doubled uid) + 1: wherever a uid field is read to form `uid + 1`,
     # the doubled value has been stored in that field on every path to the read (uid + 1 of the undoubled value lies at or before
